@@ -17,7 +17,7 @@ func init() {
 	Register(&Profile{Prop: "C04", Fatal: []string{"C04."}, Run: runC04, Core: coreC04})
 }
 
-const c04NumMut = 23
+const c04NumMut = 24
 
 func coreC04(tier string) []RunSpec {
 	var out []RunSpec
@@ -143,6 +143,14 @@ func (m *MW) StepForge(forceMut, forceVia int) {
 	case 15: // Y itself as C (k=1)
 		pj["C"] = hY(p.Secret)
 		desc = "C = Y"
+	case 23: // another spelling of the proof's own keyset id: not the id of any keyset of the mint
+		v := m.T.Choose("forge.idspell", 6)
+		alt := []string{strings.ToUpper(p.ID), strings.ToUpper(p.ID[:8]) + p.ID[8:], p.ID + " ", " " + p.ID, "0x" + p.ID, p.ID + "\x00"}[v]
+		if alt == p.ID {
+			alt = p.ID + " "
+		}
+		pj["id"] = alt
+		desc = fmt.Sprintf("id respelled %q", alt)
 	case 22: // -C: the same x, the other y (parity byte of the compressed encoding flipped)
 		if strings.HasPrefix(p.C, "02") {
 			pj["C"] = "03" + p.C[2:]
